@@ -30,7 +30,7 @@ FUN_MSG = ('roll', 'pitch', 'yaw')
 ALL_FUNS = FUN1_NUM + FUN_CONV + FUN_AGG + FUN_MSG + ('log', 'atan2')
 TIME_TEXTS = ('1', '5', '10', '100', '0.5', '0.1', '250', '3.5', '1000', '0.001', '72.33', '0.07233',
               '1e9', '1e20', '60', '0.25', '2.5', '33', '7', '1e-3', '12.5', '999', '1e-9', '0.3', '.75',
-              '0', '0.0', '0e0', '0.000', '1.', '1e-320', '4.9e-324')
+              '0', '0.0', '0e0', '0.000', '1.', '1e-320', '4.9e-324', '9', '13', '18', '26', '1.1', '0.57')
 
 
 def pick(rng, seq):
